@@ -237,7 +237,7 @@ class Scenario:
         return " ".join(out)
 
     def sim_line(self):
-        cmds = ["conn"]
+        cmds = ["conn", "log"]
         comp = self.component
         for o in self.ops:
             k = o[0]
